@@ -388,6 +388,55 @@ pub fn run(cx: &mut Cx, which: Which) {
             });
         }
     });
+    // 1 run in 3: a BURST of presentations -- four holder threads leave a barrier into proof_gen at
+    // the same instant, three rounds each (the real-time overlap a pure baton cannot produce; see
+    // DESIGN.md 10.2 on bursts).  All twelve frames go through the same history: no group element,
+    // pair combination or blinding term may be shared between them.
+    if which == Which::Masking || which == Which::Openings {
+        if cx.ch.chance("presentation_burst", 1, 3) {
+            let nodes: Vec<zksim_core::sim::NodeId> = (0..4).map(|i| cx.node(&format!("burst-presenter{i}"))).collect();
+            let (kb, mb, hb) = (key.clone(), msgs.clone(), hidden.clone());
+            let (key, msgs) = (key.clone(), msgs.clone());
+            let hist_b: std::rc::Rc<std::cell::RefCell<History>> = Default::default();
+            cx.count("probe.presentation_burst");
+            let decoy_b = gen_attr(seed, 9997, 0).value;
+            cx.step(issuer, "sign-for-burst", StepOpts::default(), move || issue_plain(&kb, &mb), move |cx, st| {
+                let Ok(sig) = st.out else { return };
+                let barrier = Arc::new(std::sync::Barrier::new(nodes.len()));
+                let steps: Vec<(zksim_core::sim::NodeId, Box<dyn FnOnce() -> Vec<String> + Send>)> = nodes.iter().map(|&nd| {
+                    let (k, m, h, sg, b) = (key.clone(), msgs.clone(), hb.clone(), sig.clone(), barrier.clone());
+                    let f: Box<dyn FnOnce() -> Vec<String> + Send> = Box::new(move || (0..3).map(|_| { b.wait(); holder_present(&k, &sg, &m, &h) }).collect());
+                    (nd, f)
+                }).collect();
+                let (key_c, msgs_c, hidden_c, hist_c) = (key.clone(), msgs.clone(), hb.clone(), hist_b.clone());
+                cx.burst(steps, "proof_gen x3 from a barrier", move |cx, outs| {
+                    for (ni, st) in outs.into_iter().enumerate() {
+                        let Ok(frames) = st.out else { cx.log("burst proof_gen failed (C15's business)".into()); continue; };
+                        for (r, pj) in frames.into_iter().enumerate() {
+                            let who = format!("burst-presenter{ni}/round{r}");
+                            let v = parse(&pj);
+                            cx.eval(&[b"burst-pok", who.as_bytes(), pj.as_bytes()], true);
+                            cx.count("fault.concurrent_calls");
+                            let mut secrets: Vec<Secret> = hidden_c.iter().map(|&i| Secret { kind: "hidden-attribute".into(), value: msgs_c[i].clone() }).collect();
+                            secrets.push(Secret { kind: "signature-e".into(), value: sig.0.clone() });
+                            secrets.push(Secret { kind: "signature-v".into(), value: sig.2.clone() });
+                            secrets.push(Secret { kind: "signature-s".into(), value: sig.1.clone() });
+                            match which {
+                                Which::Openings => check_combinations(cx, "PoKSignature", &who, &v, &key_c.pk.N, &mut hist_c.borrow_mut()),
+                                Which::Masking => {
+                                    // published randomness values are blinding terms too: a mask of one frame must not be the opening of another
+                                    let mut hh = hist_c.borrow_mut();
+                                    for (p, _val, rnd) in commitment_objects(&v) { if rnd > 0 { let here = format!("{who}:{}", generic_path(&p)); if let Some(prev) = hh.blinders.get(&rnd.to_string_radix(16)) { if *prev != here { cx.violation("C19", format!("PoKSignature/{}.randomness/blinder-reused", generic_path(&p)), format!("the randomness published in {here} is the blinding term of {prev}")); } } else { hh.blinders.insert(rnd.to_string_radix(16), here); } } }
+                                    check_masking_h(cx, "PoKSignature", &who, &v, &secrets, &[], &mut hh);
+                                }
+                            }
+                        }
+                    }
+                    let _ = &decoy_b;
+                });
+            });
+        }
+    }
     // every eighth run: a wide credential (more than 64 attributes) with hidden attributes beyond
     // position 63, presented and observed the same way
     if cx.run_index % 8 == 3 {
